@@ -71,6 +71,8 @@ pub fn eval_wait(sc: &Scenario) -> CaseResult {
 pub fn run(ctx: &Ctx) -> PropReport {
     let mut rep = PropReport::new("C02", "exploration");
     let mut p = GenParams::default();
+    // tick rates other than the default 60 fps (the builder's with_fps follows the game's tick rate)
+    p.fps = vec![60, 60, 60, 30, 120, 144];
     p.ticks = ctx.tier.pick((200, 900), (1500, 4000));
     p.windows.push((2, 0));
     let rule = "C01's scenario space (plus lockstep and spectators); every request is checked by the strict game while it is executed: Save names the game's frame; Load names an earlier frame whose cell holds exactly what was last saved for it and equals the fold of the current timeline up to that frame; Advance without gaps; afterwards game frame == current_frame() and delta in {0,1}; Save(0) precedes the first simulation of frame 0; spectators: only Advance, count == delta; non-trivial = >=1 Load executed and fully verified";
